@@ -1,7 +1,7 @@
 (* C15 property theorems: ONLY statements closed by `exact`, each followed by Print Assumptions.
    (sT, aT) = (sizeof T, alignof T); geometry, pool histories, system-allocator guards, debug allocator. *)
 From Coq Require Import List NArith Bool Arith.
-From DuneV Require Import C15_Model C15_Spec C15_Proofs C15_Proofs_Sys C15_Proofs_Dbg C15_Proofs_Align.
+From DuneV Require Import Params_gen C15_Model C15_Spec C15_Proofs C15_Proofs_Sys C15_Proofs_Heap C15_Proofs_Multi C15_Proofs_Dbg C15_Proofs_Align.
 Import ListNotations.
 Local Open Scope N_scope.
 
@@ -199,6 +199,89 @@ Theorem C15_isAligned : forall p k, p < 2 ^ 64 -> k <= 62 -> c15_isAligned p (2 
 Proof. exact c15_isAligned_correct. Qed.
 Print Assumptions C15_isAligned.
 
+(* ===== proof-deepening round ===== *)
+
+(* --- C15_pool_refines: the pool with the LITERAL intrusive free list (head_, next_ words stored inside the free slots, any initial memory
+       contents h0, clients overwriting the blocks they own with anything: junk) produces the same observations as the list-based pool
+       for every history: the abstraction used by C15_pool_inv is sound for the code's data structure. *)
+Theorem C15_pool_refines : forall g sT aT junk h0 ops, c15_geom_good sT aT g -> c15_ops_ok 0 ops = true ->
+  fst (c15_hrun g junk (c15_hclient_empty h0) ops) = fst (c15_run g c15_client_empty ops).
+Proof. exact c15_pool_refines. Qed.
+Print Assumptions C15_pool_refines.
+
+(* --- C15_pool_history_params: no hypothesis about the geometry: for ALL template parameters (sizeof T, alignof T, s) of Pool<T,s> or
+       PoolAllocator<T,s> whose constants are representable, and all histories: oracle accepts, destroy returns every chunk, and the
+       literal free list agrees. *)
+Theorem C15_pool_history_params : forall sT aT s g ops, 1 <= sT -> 1 <= aT ->
+  (c15_geometry sT aT s = Some g \/ c15_pa_geometry sT aT s = Some g) -> c15_ops_ok 0 ops = true ->
+  let r := c15_run g c15_client_empty ops in
+  c15_spec_trace sT aT (g_chunkSize g) 0 [] ops (fst r) = true /\
+  c15_spec_destroy (c15_spec_nchunks (fst r)) (c15_pool_destroy (cl_pool (snd r))) = true /\
+  (forall junk h0, fst (c15_hrun g junk (c15_hclient_empty h0) ops) = fst r).
+Proof. exact c15_pool_history_params. Qed.
+Print Assumptions C15_pool_history_params.
+
+(* --- several allocator objects (copy construction, converting construction, rebind create a new allocator with an EMPTY pool):
+       every allocator of every reachable configuration keeps its own invariant; a block is released by the allocator object it came
+       from and refused (bad_alloc, nothing changes) by every other one, and operator== (object identity) tells which. *)
+Theorem C15_multi_inv : forall g sT aT, c15_geom_good sT aT g -> forall ops ms,
+  Forall (c15_pool_inv g) ms -> c15_mops_ok g ms ops = true -> Forall (c15_pool_inv g) (snd (c15_mrun g ms ops)).
+Proof. exact c15_multi_inv. Qed.
+Print Assumptions C15_multi_inv.
+
+Theorem C15_multi_release : forall g sT aT ms k j i stk stj b, c15_geom_good sT aT g -> Forall (c15_pool_inv g) ms ->
+  nth_error ms k = Some stk -> nth_error ms j = Some stj -> nth_error (cl_live stj) i = Some b ->
+  snd (c15_mstep g ms (MEqual j k)) = MObsEq (Nat.eqb j k) /\
+  (k <> j -> c15_mstep g ms (MFreeVia k j i) = (ms, MObs ObsBadAlloc)) /\
+  (k = j -> snd (c15_mstep g ms (MFreeVia k j i)) = MObs ObsFreed).
+Proof. exact c15_multi_release. Qed.
+Print Assumptions C15_multi_release.
+
+(* the address-level reason (contract of `new Chunk`: chunks of different objects are different storage) *)
+Theorem C15_foreign_block_not_found : forall g sT aT (base : nat -> nat -> N), c15_geom_good sT aT g ->
+  (forall k c j c', (k, c) <> (j, c') -> base k c + g_chunkSize g <= base j c' \/ base j c' + g_chunkSize g <= base k c) ->
+  forall k j chunks nch b, k <> j -> c15_slot_valid g nch b ->
+    c15_addr_in_pool base g k chunks (base j (fst b) + snd b) = false.
+Proof. exact c15_foreign_block_not_found. Qed.
+Print Assumptions C15_foreign_block_not_found.
+
+Theorem C15_own_block_found : forall g sT aT (base : nat -> nat -> N), c15_geom_good sT aT g ->
+  forall j chunks nch b, In (fst b) chunks -> c15_slot_valid g nch b ->
+    c15_addr_in_pool base g j chunks (base j (fst b) + snd b) = true.
+Proof. exact c15_own_block_found. Qed.
+Print Assumptions C15_own_block_found.
+
+(* --- C15_debug_blocks_disjoint: after EVERY history on the debugging allocator: each live block lies inside its own mapping and ends
+       exactly one page below the mapping's end (the guard page); blocks of different live allocations are disjoint. *)
+Theorem C15_debug_blocks_disjoint : forall page sT (aT : N), 1 <= page -> 2 * page <= c15_size_max -> 1 <= sT ->
+  forall ops st', forallb (fun op => match op with OpAlloc _ | OpFree _ => true | _ => false end) ops = true ->
+    c15_dbg_final true true page sT (c15_dbg_state0 page) ops = Some st' ->
+    ds_live st' = map (fun it => (d_ptr it, d_size it)) (ds_list st') /\
+    Forall (fun it => d_page_ptr it <= d_ptr it /\ d_ptr it + d_capacity it + page = d_page_ptr it + d_pages it * page) (ds_list st') /\
+    ForallOrdPairs (fun a b => d_ptr a + d_capacity a <= d_ptr b) (ds_list st').
+Proof. exact c15_debug_blocks_disjoint. Qed.
+Print Assumptions C15_debug_blocks_disjoint.
+
+Theorem C15_debug_destroy : forall page sT (aT : N), 1 <= page -> 2 * page <= c15_size_max -> 1 <= sT ->
+  forall ops st', forallb (fun op => match op with OpAlloc _ | OpFree _ => true | _ => false end) ops = true ->
+    c15_dbg_final true true page sT (c15_dbg_state0 page) ops = Some st' ->
+    c15_spec_dbg_destroy (length (ds_live st')) (length (fst (c15_dbg_destroy (ds_list st')))) (snd (c15_dbg_destroy (ds_list st'))) = true.
+Proof. exact c15_debug_destroy_final. Qed.
+Print Assumptions C15_debug_destroy.
+
+(* --- AlignedBase placement new: the violation handler is consulted exactly for misaligned addresses (default handler: abort; user
+       handler: reported; empty handler: nothing); debugAlignment is the power of two 32 *)
+Theorem C15_alignedbase_new : forall h p k, p < 2 ^ 64 -> k <= 62 ->
+  c15_alignedbase_new h p (2 ^ k) =
+    if p mod 2 ^ k =? 0 then PlacePlaced
+    else match h with HandlerDefault => PlaceAbort | HandlerUser => PlaceReported | HandlerEmpty => PlacePlaced end.
+Proof. exact c15_alignedbase_new_correct. Qed.
+Print Assumptions C15_alignedbase_new.
+
+Theorem C15_debug_alignment : c15_debug_alignment = 2 ^ 5.
+Proof. exact c15_debug_alignment_pow2. Qed.
+Print Assumptions C15_debug_alignment.
+
 (* --- non-vacuity: hypotheses are met by non-trivial values *)
 Example C15_ex_geometry : c15_geometry 12 4 41 = Some (C15Geom 12 41 8 16 48 3).
 Proof. vm_compute; reflexivity. Qed.
@@ -232,4 +315,21 @@ Example C15_ex_debug_misuse :
   c15_dbg_run true true 4096 8 (c15_dbg_state0 4096) [OpAlloc 10; OpFreeN 0 0; OpFreeInvalid true] = [DObsOk 4016 80 true; DObsFreed; DObsAbort DbgNotFound] /\
   c15_dbg_run true true 4096 8 (c15_dbg_state0 4096) [OpAlloc 10; OpFreeBad 0 1] = [DObsOk 4016 80 true; DObsAbort DbgPtr] /\
   c15_dbgk_run 4096 8 (c15_dbgk_state0 4096) [OpAlloc 10; OpFree 0; OpFreeBad 0 2] = [DObsOk 4016 80 true; DObsFreed; DObsAbort DbgNotFree].
+Proof. vm_compute; repeat split; reflexivity. Qed.
+Example C15_ex_heap :
+  let ops := [OpAlloc 1; OpAlloc 1; OpAlloc 1; OpAlloc 1; OpFree 1; OpFree 0; OpAlloc 1; OpAlloc 1; OpAlloc 1] in
+  let junk := fun b : c15_slot => Some (7%nat, 123) in
+  c15_ops_ok 0 ops = true /\
+  fst (c15_hrun (C15Geom 12 41 8 16 48 3) junk (c15_hclient_empty (fun _ => Some (9%nat, 9))) ops) =
+    [ObsBlock 0 0; ObsBlock 0 16; ObsBlock 0 32; ObsBlock 1 0; ObsFreed; ObsFreed; ObsBlock 0 0; ObsBlock 0 16; ObsBlock 1 16].
+Proof. vm_compute; split; reflexivity. Qed.
+Example C15_ex_multi :
+  let g := C15Geom 12 41 8 16 48 3 in
+  let ops := [MAlloc 0 1; MCopy 0; MAlloc 1 1; MEqual 0 1; MEqual 1 1; MFreeVia 1 0 0; MFreeVia 0 0 0; MFree 1 0] in
+  c15_mops_ok g [c15_client_empty] ops = true /\
+  fst (c15_mrun g [c15_client_empty] ops) =
+    [MObs (ObsBlock 0 0); MObs ObsCopyOk; MObs (ObsBlock 0 0); MObsEq false; MObsEq true; MObs ObsBadAlloc; MObs ObsFreed; MObs ObsFreed].
+Proof. vm_compute; split; reflexivity. Qed.
+Example C15_ex_alignedbase : c15_alignedbase_new HandlerUser 4112 32 = PlaceReported /\ c15_alignedbase_new HandlerDefault 4112 32 = PlaceAbort /\
+  c15_alignedbase_new HandlerEmpty 4112 32 = PlacePlaced /\ c15_alignedbase_new HandlerDefault 4128 32 = PlacePlaced.
 Proof. vm_compute; repeat split; reflexivity. Qed.
